@@ -98,6 +98,10 @@ def run_property(modname, replay_path=None):
         "monitor_counters": counters,
         "foreign_observations": tot.foreign,
     }
+    lt = counters.get("lincheck_timeouts", 0)
+    hist = counters.get("process_histories", 0) + counters.get("thread_histories", 0)
+    if lt and hist and lt > 0.2 * hist:
+        rep.inconclusive_because(f"the history checker timed out on {lt} of {hist} histories")
     if hasattr(mod, "min_required"):
         for name, need in mod.min_required(tier()).items():
             got = counters.get(name, 0) if name != "evaluations" else tot.evaluations
